@@ -34,16 +34,21 @@ LC = "data_structures::LabeledCommitment"
 # `proof`: (ADT, fields) the verifier must consume. `vk`: (ADT, fields) the relation mentions.
 # Fields that are metadata only (degree reports) are not listed: the relation does not mention them.
 KZG_VK = ("kzg10::data_structures::VerifierKey", None)  # field list depends on the verifier, see below
+G1A = ["<E as ark_ec::pairing::Pairing>::G1Affine"]
+G2A = ["<E as ark_ec::pairing::Pairing>::G2Affine"]
+GRP = ["G"]
+KZG_PROOF = [("kzg10::data_structures::Proof", "w"), ("kzg10::data_structures::Proof", "random_v", SCALARS)]
+
 SCHEMES = {
     "marlin_kzg10": dict(
         adt="marlin::marlin_pc::MarlinKZG10",
         own=["check", "batch_check", "check_combinations"],
         commitment=[(LC, "commitment"), ("marlin::marlin_pc::data_structures::Commitment", "comm"),
                     ("kzg10::data_structures::Commitment", "0")],
-        proof=[("kzg10::data_structures::Proof", "w"), ("kzg10::data_structures::Proof", "random_v")],
-        vk={"check": [("kzg10::data_structures::VerifierKey", x) for x in ("g", "gamma_g", "h", "beta_h")]
+        proof=KZG_PROOF,
+        vk={"check": [("kzg10::data_structures::VerifierKey", x) for x in ("g", "gamma_g", "h|prepared_h", "beta_h|prepared_beta_h")]
             + [("marlin::marlin_pc::data_structures::VerifierKey", "vk")],
-            "batch_check": [("kzg10::data_structures::VerifierKey", x) for x in ("g", "gamma_g", "prepared_h", "prepared_beta_h")]
+            "batch_check": [("kzg10::data_structures::VerifierKey", x) for x in ("g", "gamma_g", "h|prepared_h", "beta_h|prepared_beta_h")]
             + [("marlin::marlin_pc::data_structures::VerifierKey", "vk")]},
         degree_bound=dict(shifted=("marlin::marlin_pc::data_structures::Commitment", "shifted_comm"),
                           shifted_payload=["kzg10::data_structures::Commitment<E>"],
@@ -53,16 +58,18 @@ SCHEMES = {
         adt="sonic_pc::SonicKZG10",
         own=["check", "batch_check", "check_combinations"],
         commitment=[(LC, "commitment"), ("kzg10::data_structures::Commitment", "0")],
-        proof=[("kzg10::data_structures::Proof", "w"), ("kzg10::data_structures::Proof", "random_v")],
-        vk={"check": [("sonic_pc::data_structures::VerifierKey", x) for x in ("g", "gamma_g", "prepared_h", "prepared_beta_h")],
-            "batch_check": [("sonic_pc::data_structures::VerifierKey", x) for x in ("g", "gamma_g", "prepared_h", "prepared_beta_h")]},
+        proof=KZG_PROOF,
+        vk={"check": [("sonic_pc::data_structures::VerifierKey", x) for x in ("g", "gamma_g", "h|prepared_h", "beta_h|prepared_beta_h")],
+            "batch_check": [("sonic_pc::data_structures::VerifierKey", x) for x in ("g", "gamma_g", "h|prepared_h", "beta_h|prepared_beta_h")]},
         degree_bound=dict(vk_field=("sonic_pc::data_structures::VerifierKey", "degree_bounds_and_neg_powers_of_h")),
     ),
     "ipa": dict(
         adt="ipa_pc::InnerProductArgPC",
         own=["check", "batch_check", "check_combinations"],
         commitment=[(LC, "commitment"), ("ipa_pc::data_structures::Commitment", "comm")],
-        proof=[("ipa_pc::data_structures::Proof", x) for x in ("l_vec", "r_vec", "final_comm_key", "c", "hiding_comm", "rand")],
+        proof=[("ipa_pc::data_structures::Proof", "l_vec", GRP), ("ipa_pc::data_structures::Proof", "r_vec", GRP),
+               ("ipa_pc::data_structures::Proof", "final_comm_key"), ("ipa_pc::data_structures::Proof", "c"),
+               ("ipa_pc::data_structures::Proof", "hiding_comm", GRP), ("ipa_pc::data_structures::Proof", "rand", SCALARS)],
         vk={"check": [("ipa_pc::data_structures::CommitterKey", x) for x in ("comm_key", "h", "s")],
             "batch_check": [("ipa_pc::data_structures::CommitterKey", x) for x in ("comm_key", "h", "s")]},
         degree_bound=dict(shifted=("ipa_pc::data_structures::Commitment", "shifted_comm"), shifted_payload=["G"]),
@@ -72,16 +79,17 @@ SCHEMES = {
         own=["check", "batch_check", "check_combinations"],
         commitment=[(LC, "commitment"), ("marlin::marlin_pc::data_structures::Commitment", "comm"),
                     ("kzg10::data_structures::Commitment", "0")],
-        proof=[("marlin::marlin_pst13_pc::data_structures::Proof", "w"),
-               ("marlin::marlin_pst13_pc::data_structures::Proof", "random_v")],
-        vk={"check": [("marlin::marlin_pst13_pc::data_structures::VerifierKey", x) for x in ("g", "gamma_g", "h", "beta_h")],
-            "batch_check": [("marlin::marlin_pst13_pc::data_structures::VerifierKey", x) for x in ("g", "gamma_g", "h", "beta_h")]},
+        proof=[("marlin::marlin_pst13_pc::data_structures::Proof", "w", G1A),
+               ("marlin::marlin_pst13_pc::data_structures::Proof", "random_v", SCALARS)],
+        vk={"check": [("marlin::marlin_pst13_pc::data_structures::VerifierKey", x) for x in ("g", "gamma_g", "h|prepared_h", "beta_h|prepared_beta_h")],
+            "batch_check": [("marlin::marlin_pst13_pc::data_structures::VerifierKey", x) for x in ("g", "gamma_g", "h|prepared_h", "beta_h|prepared_beta_h")]},
     ),
     "hyrax": dict(
         adt="hyrax::HyraxPC",
         own=["check"],
         commitment=[(LC, "commitment"), ("hyrax::data_structures::HyraxCommitment", "row_coms")],
-        proof=[("hyrax::data_structures::HyraxProof", x) for x in ("com_eval", "com_d", "com_b", "z", "z_d", "z_b")],
+        proof=[("hyrax::data_structures::HyraxProof", x) for x in ("com_eval", "com_d", "com_b", "z_d", "z_b")]
+        + [("hyrax::data_structures::HyraxProof", "z", SCALARS)],
         vk={"check": [("hyrax::data_structures::HyraxUniversalParams", x) for x in ("com_key", "h")]},
     ),
     "linear_codes": dict(
@@ -93,10 +101,10 @@ SCHEMES = {
                     ("linear_codes::data_structures::Metadata", "n_cols"),
                     ("linear_codes::data_structures::Metadata", "n_ext_cols")],
         proof=[("linear_codes::data_structures::LinCodePCProof", "opening"),
-               ("linear_codes::data_structures::LinCodePCProof", "well_formedness"),
+               ("linear_codes::data_structures::LinCodePCProof", "well_formedness", SCALARS),
                ("linear_codes::data_structures::LinCodePCProofSingle", "paths"),
-               ("linear_codes::data_structures::LinCodePCProofSingle", "v"),
-               ("linear_codes::data_structures::LinCodePCProofSingle", "columns"),
+               ("linear_codes::data_structures::LinCodePCProofSingle", "v", SCALARS),
+               ("linear_codes::data_structures::LinCodePCProofSingle", "columns", SCALARS),
                ("ark_crypto_primitives::merkle_tree::Path", "leaf_index")],
         vk={"check": []},  # the key is a trait object of LinCodeParametersInfo: see VK_CALLS
     ),
@@ -118,21 +126,21 @@ INHERENT_VERIFIERS = {
         find=dict(name="check", self_adt="kzg10::KZG10", trait=""),
         roles=dict(vk=1, commitments=2, point=3, values=4, proof=5),
         commitment=[("kzg10::data_structures::Commitment", "0")],
-        proof=[("kzg10::data_structures::Proof", "w"), ("kzg10::data_structures::Proof", "random_v")],
-        vk=[("kzg10::data_structures::VerifierKey", x) for x in ("g", "gamma_g", "h", "beta_h")],
+        proof=KZG_PROOF,
+        vk=[("kzg10::data_structures::VerifierKey", x) for x in ("g", "gamma_g", "h|prepared_h", "beta_h|prepared_beta_h")],
     ),
     "kzg10.batch_check": dict(
         find=dict(name="batch_check", self_adt="kzg10::KZG10", trait=""),
         roles=dict(vk=1, commitments=2, point=3, values=4, proof=5, rng=6),
         commitment=[("kzg10::data_structures::Commitment", "0")],
-        proof=[("kzg10::data_structures::Proof", "w"), ("kzg10::data_structures::Proof", "random_v")],
-        vk=[("kzg10::data_structures::VerifierKey", x) for x in ("g", "gamma_g", "prepared_h", "prepared_beta_h")],
+        proof=KZG_PROOF,
+        vk=[("kzg10::data_structures::VerifierKey", x) for x in ("g", "gamma_g", "h|prepared_h", "beta_h|prepared_beta_h")],
     ),
     "multilinear.check": dict(
         find=dict(name="check", self_adt="multilinear_pc::MultilinearPC", trait=""),
         roles=dict(vk=1, commitments=2, point=3, values=4, proof=5),
         commitment=[("multilinear_pc::data_structures::Commitment", "g_product")],
-        proof=[("multilinear_pc::data_structures::Proof", "proofs")],
+        proof=[("multilinear_pc::data_structures::Proof", "proofs", G2A)],
         vk=[("multilinear_pc::data_structures::VerifierKey", x) for x in ("g", "h", "g_mask_random")],
     ),
     "streaming.verify": dict(
